@@ -16,12 +16,20 @@ RUN=$(grep -o "\-run '[^']*'" $DEMO | head -1 | sed "s/-run '//; s/'//")
 echo "seed=$SD pkg=$PKG run=$RUN"
 if ! git -C $WT apply --check $SD/patch.diff 2>/dev/null; then echo "RESULT patch-does-not-apply-at-HEAD"; exit 3; fi
 cp $DEMO $WT/$PKG/zz_seed_demo_test.go
+for attempt in 1 2 3 4; do
 ( cd $WT && go test -vet=off -count=1 -run "$RUN" ./$PKG/ >/tmp/seed-a.log 2>&1 ); A=$?
+grep -q "address already in use" /tmp/seed-a.log || break
+sleep 15
+done
 git -C $WT apply $SD/patch.diff
 ( cd $WT && go test -vet=off -count=1 -run "$RUN" ./$PKG/ >/tmp/seed-b.log 2>&1 ); B=$?
 rm $WT/$PKG/zz_seed_demo_test.go
 TOUCHED=$(git -C $WT diff --name-only | xargs -n1 dirname | sort -u | sed 's#^#./#; s#$#/#')
+for attempt in 1 2 3 4; do
 ( cd $WT && go build ./... >/tmp/seed-c.log 2>&1 && go test -vet=off -count=1 $TOUCHED "$@" >>/tmp/seed-c.log 2>&1 ); C=$?
+grep -q "address already in use" /tmp/seed-c.log || break
+sleep 20
+done
 echo "demo-without-patch-exit=$A (want 0) demo-with-patch-exit=$B (want !=0) existing-tests-with-patch-exit=$C (want 0)"
 [ $C -ne 0 ] && tail -20 /tmp/seed-c.log
 # run the check against the change in /repo
